@@ -14,7 +14,7 @@ def rand_params(t, g, scale=0.7):
 
 
 def run(tier, seed):
-    ck = Check("C11", tier, seed, areas=["linear"], gen_groups=[])
+    ck = Check("C11", tier, seed, areas=["linear"], gen_groups=["LinearFamily"])
     ck.rule = ("LU / QR / SVD / naive / Householder parameterisations x feature counts 1..6 x Householder counts 1..14 (odd, "
                "even, larger than the feature count) x initialisation modes x random parameters (float64): the extracted "
                "list-of-rows model vs weight(), weight_inverse(), logabsdet(), forward, inverse; on the implementation W "
